@@ -78,8 +78,16 @@ pub fn route_m2s_private_payload(
             from: router.local_domain(),
             length: outbound.payload.len() as u32,
           });
-          for target in outbound.targets {
-            match router.route_to(mod_priv_msg.clone(), Some(outbound.payload.clone()), target, None) {
+          let mut delivered: Vec<&narwhal_util::string_atom::StringAtom> = Vec::with_capacity(outbound.targets.len());
+
+          for target in outbound.targets.iter() {
+            // A target listed more than once still gets the payload once.
+            if delivered.contains(&target) {
+              continue;
+            }
+            delivered.push(target);
+
+            match router.route_to(mod_priv_msg.clone(), Some(outbound.payload.clone()), target.clone(), None) {
               Ok(_) => {},
               Err(err) => {
                 warn!("failed to route private payload: {}", err);
